@@ -45,6 +45,34 @@ Proof.
     + destruct (IH t eq_refl Hin) as (d' & k' & Hl & Ho). exists d', k'. split; [right; exact Hl|exact Ho].
 Qed.
 
+Lemma py_slice_clamp {A} (l : list A) lo hi :
+  py_slice l lo hi = py_slice l (Nat.min lo (length l)) (Nat.min lo (length l) + (Nat.min hi (length l) - Nat.min lo (length l))).
+Proof.
+  unfold py_slice. set (n := length l).
+  destruct (Nat.le_gt_cases n lo) as [Hge|Hlt].
+  - rewrite (skipn_all2 l) by exact Hge. rewrite Nat.min_r by exact Hge. rewrite (skipn_all2 l) by (unfold n; lia).
+    now rewrite !firstn_nil.
+  - rewrite (Nat.min_l lo n) by lia. replace (lo + (Nat.min hi n - lo) - lo) with (Nat.min hi n - lo) by lia.
+    destruct (Nat.le_gt_cases hi n) as [Hh|Hh].
+    + now rewrite Nat.min_l by exact Hh.
+    + rewrite Nat.min_r by lia. rewrite !firstn_all2; [reflexivity| |]; rewrite skipn_length; fold n; lia.
+Qed.
+
+Lemma bounds_grids_slices {A} (l : list A) idx : forall lo,
+  bounds_grids l lo idx = slice_grids l (tsplit_bounds (length l) lo idx).
+Proof.
+  induction idx as [|hi r IH]; intros lo; cbn [bounds_grids tsplit_bounds slice_grids map fst snd].
+  - f_equal. rewrite (py_slice_clamp l lo (length l)). now rewrite Nat.min_id.
+  - f_equal; [apply py_slice_clamp|]. apply IH.
+Qed.
+
+Lemma tsplit_bounds_bound n idx : forall lo os, In os (tsplit_bounds n lo idx) -> fst os + snd os <= n.
+Proof.
+  induction idx as [|hi r IH]; intros lo os; cbn [tsplit_bounds].
+  - intros [<-|[]]. cbn. lia.
+  - intros [<-|H]; [cbn; lia|]. eapply IH; eauto.
+Qed.
+
 Section Split.
 Variable gshape : gid -> shape.
 Variable gaxes : gid -> axes.
@@ -55,11 +83,12 @@ Definition split_offs (o : op) (n : nat) : option (list (nat * nat)) :=
   | OSplit size _ => if size =? 0 then None else Some (offsets 0 (if n =? 0 then [0] else int_sizes n size))
   | OSplitL sizes _ | OSplitSizes sizes _ => if sum sizes =? n then Some (offsets 0 sizes) else None
   | OTSplitN k _ => if k =? 0 then None else Some (offsets 0 (tsplit_sizes n k))
+  | OTSplitI idx _ => Some (tsplit_bounds n 0 idx)
   | _ => None
   end.
 Definition split_dim0 (o : op) : Prop :=
   match o with
-  | OSplit _ d | OSplitL _ d | OSplitSizes _ d | OTSplitN _ d => dim_value d = 0%Z
+  | OSplit _ d | OSplitL _ d | OSplitSizes _ d | OTSplitN _ d | OTSplitI _ d => dim_value d = 0%Z
   | _ => False
   end.
 
@@ -76,6 +105,7 @@ Proof.
     apply offsets_bound in Hin. lia.
   - destruct (n0 =? 0) eqn:Ek; [discriminate|]. apply Nat.eqb_neq in Ek. intros H; injection H as <-. intros Hin.
     apply offsets_bound in Hin. rewrite tsplit_sizes_sum in Hin by exact Ek. lia.
+  - intros H; injection H as <-. apply tsplit_bounds_bound.
 Qed.
 
 Theorem split_batch_dim_sound o s gs :
@@ -103,7 +133,7 @@ Proof.
       cbn [nth t_shape t_kind map choose_disp fold_left disp_of existsb insert_disp hd];
       unfold dispatch_batch; cbn [map to_batch t_kind t_shape flat_map app hd kw_of];
       unfold tf_grid_batch; cbn [flat_map app]; rewrite Hd; cbn [Z.ltb Z.eqb Z.compare];
-      unfold split_offs; cbn [data_sem nth_shape nth]; rewrite Hd, Hn; cbn [nth]; unfold gid in *; rewrite ?HL;
+      unfold split_offs; cbn [data_sem nth_shape nth]; rewrite Hd, Hn; cbn [nth]; rewrite ?bounds_grids_slices; unfold gid in *; rewrite ?HL;
       cbv [is_split_class class_of];
       repeat match goal with |- context [if ?c then _ else _] => destruct c end; try reflexivity;
       match goal with |- context [match slice_grids ?a ?b with _ => _ end] => destruct (slice_grids a b) end; reflexivity. }
@@ -132,6 +162,78 @@ Proof.
   split; [apply coherent_single|]. split.
   - exists (0, off + i). split; [left; reflexivity|]. unfold entry_grid; cbn.
     unfold py_slice. rewrite nth_firstn_lt by lia. rewrite nth_skipn_add. apply nth_error_nth'. lia.
+  - intros ax Hax; discriminate Hax.
+Qed.
+(* the same functions along any other (non-negative) dimension: every piece keeps all grids *)
+Definition split_other_dim (o : op) : Prop :=
+  match o with
+  | OSplit _ d | OSplitL _ d | OSplitSizes _ d | OTSplitN _ d | OTSplitI _ d => (0 < dim_value d)%Z
+  | _ => False
+  end.
+
+Lemma in_combine_repeat {A B} (l : list A) (g : B) x y : In (x, y) (combine l (repeat g (length l))) -> In x l /\ y = g.
+Proof.
+  induction l as [|a l IH]; cbn; [tauto|]. intros [H|H]; [injection H as <- <-; auto|]. destruct (IH H); auto.
+Qed.
+
+Theorem split_other_dim_sound o s gs :
+  split_other_dim o -> wf_val gshape (mkT s (TBatch None gs)) ->
+  res_sound gshape [mkT s (TBatch None gs)] (run_op gshape gaxes o [mkT s (TBatch None gs)]).
+Proof.
+  intros Hd Hwf.
+  unfold wf_val in Hwf; cbn [t_kind t_shape] in Hwf. destruct Hwf as (HL & H4 & HF).
+  assert (Hrun : exists z, (0 < z)%Z /\
+            run_op gshape gaxes o [mkT s (TBatch None gs)] =
+            match data_sem o [s] with
+            | DErr e => OErr e
+            | DOne d => one_kind d (res_batch gshape (d_shape d) (Some gs))
+            | DTuple ds =>
+                let gss := repeat gs (length ds) in
+                if negb (length gss =? length ds) then OErr EAssert
+                else if negb (forallb (fun dg => nent (d_shape (fst dg)) =? length (snd dg)) (combine ds gss)) then OErr EAssert
+                else tuple_of (map (fun dg => (fst dg, res_batch gshape (d_shape (fst dg)) (Some (snd dg)))) (combine ds gss))
+            end /\ (forall ds, data_sem o [s] = DTuple ds -> forall d, In d ds -> d_src d = ident_src 0 (nent s))
+            /\ (forall dd, data_sem o [s] <> DOne dd)).
+  { destruct o; cbn [split_other_dim] in Hd; try contradiction; exists (dim_value d); (split; [exact Hd|]); (split; [|split]).
+    all: try (unfold run_op;
+      cbn [nth t_shape t_kind map choose_disp fold_left disp_of existsb insert_disp hd];
+      unfold dispatch_batch; cbn [map to_batch t_kind t_shape flat_map app hd kw_of];
+      unfold tf_grid_batch; cbn [flat_map app];
+      assert (Hlt : (dim_value d <? 0)%Z = false) by (apply Z.ltb_ge; lia);
+      assert (Hne : (dim_value d =? 0)%Z = false) by (apply Z.eqb_neq; lia);
+      rewrite Hlt, Hne;
+      match goal with |- context [data_sem ?oo ?l] => destruct (data_sem oo l) as [e|dd|ds] end; try reflexivity;
+      cbv [is_split_class class_of tf_axes]; reflexivity).
+    all: try (intros ds Hds dd Hin; cbn [data_sem nth_shape nth] in Hds;
+      destruct (norm_dim (ndim s) (dim_value d)) as [nd|] eqn:En; [|discriminate Hds];
+      assert (Hnd : nd <> 0) by
+        (unfold norm_dim in En;
+         match type of En with context [if ?c then _ else _] => destruct c eqn:E1 end;
+         [injection En as <-; lia|];
+         match type of En with context [if ?c then _ else _] => destruct c eqn:E2 end; [|discriminate En];
+         apply andb_true_iff in E2; destruct E2 as [_ E2]; apply Z.ltb_lt in E2; lia);
+      try (match type of Hds with context [match ?m with _ => _ end] => destruct m as [offs|]; [|discriminate Hds] end);
+      injection Hds as <-; unfold pieces in Hin; apply in_map_iff in Hin; destruct Hin as ([off0 size0] & <- & _);
+      cbn [d_src]; destruct (nd =? 0) eqn:E0; [apply Nat.eqb_eq in E0; contradiction|reflexivity]).
+    all: (intros dd Hdd; cbn [data_sem nth_shape nth] in Hdd;
+      repeat match type of Hdd with context [match ?m with _ => _ end] => destruct m end; discriminate Hdd). }
+  destruct Hrun as (z & Hz & Hrun & Hsrc & Hnone). rewrite Hrun.
+  destruct (data_sem o [s]) as [e|d|ds] eqn:ED; [exact I|exfalso; exact (Hnone d eq_refl)|]. cbv zeta.
+  destruct (negb (length (repeat gs (length ds)) =? length ds)); [exact I|].
+  destruct (negb (forallb _ (combine ds (repeat gs (length ds))))); [exact I|].
+  unfold tuple_of. destruct (collect _) as [e|os] eqn:EC; [exact I|].
+  cbn [res_sound]. apply Forall_forall. intros ov Hov.
+  destruct (collect_in _ _ _ EC Hov) as (d & k & Hin & ->).
+  apply in_map_iff in Hin. destruct Hin as ([d' g] & Heq & Hin). cbn [fst snd] in Heq. injection Heq as <- Hk.
+  apply in_combine_repeat in Hin. destruct Hin as (Hin & ->).
+  change (res_batch gshape (d_shape d') (Some gs) = KOk k) in Hk.
+  unfold out_sound; cbn [v_kind v_shape v_src].
+  destruct k as [|fl gs'|fl g]; [exact I| |exfalso; exact (res_batch_not_single gshape _ _ _ _ Hk)].
+  apply res_batch_typed in Hk. destruct Hk as (-> & -> & HN & H4' & HF').
+  split; [unfold wf_val, val_of; cbn [t_kind t_shape v_shape v_kind]; repeat split; auto|].
+  intros i Hi. rewrite (Hsrc ds eq_refl d' Hin). rewrite nth_ident_src by lia.
+  split; [apply coherent_single|]. split.
+  - exists (0, i). split; [left; reflexivity|]. unfold entry_grid; cbn. now apply nth_error_nth'.
   - intros ax Hax; discriminate Hax.
 Qed.
 End Split.
